@@ -251,6 +251,27 @@ def search(ctx):
     targeted families (all k for a few shapes, every class)"""
     C.setup_impl_env()
     rng = ctx.rng.child("c01-search").np
+    # modes whose largest positive and largest negative loading have exactly the same size (two standardised or two anti-correlated
+    # features, a standing wave on a symmetric domain): the sign rule has to pick one of the two, the mode must survive it
+    for fam in ("two-standardised", "anti-correlated", "standing-wave"):
+        for n in (6, 9, 12):
+            a = rng.standard_normal(n)
+            if fam == "two-standardised":
+                X, std = np.stack([a, 0.3 * a + rng.standard_normal(n)], axis=1), True
+            elif fam == "anti-correlated":
+                X, std = np.stack([a, -a], axis=1), False
+            else:
+                b = rng.standard_normal(n)
+                X, std = np.stack([a, b, 0 * a, -b, -a], axis=1), False
+            cfg = G.make_case(rng, force=dict(cls="EOF"))
+            cfg.update(n=n, p=X.shape[1], nlat=None, nlon=None, center=True, standardize=std, use_coslat=False, pole=False, weights=None, solver="full",
+                       spectrum="symmetric:" + fam, scale=1.0, cplx=False, X_re=X.tolist(), X_im=None)
+            for k in range(1, min(n, X.shape[1]) + 1):
+                cfg["k"] = k
+                rec = run_impl(cfg)
+                if rec.get("error") is None:
+                    if not oracles(ctx, cfg, rec):
+                        return
     for cls in ("EOF", "ComplexEOF", "HilbertEOF", "ExtendedEOF"):
         for spec in ("random", "geometric", "repeated", "rankdef"):
             cfg = G.make_case(rng, force=dict(cls=cls))
